@@ -83,7 +83,10 @@ class TreeModel:
             _, path, text = op[:3]
             if not self.is_file(path):
                 raise ModelError("edit of a missing file " + path)
-            self.files[path] = encode_text(text, newline_of(self.files[path]))
+            try:
+                self.files[path] = encode_text(text, newline_of(self.files[path]))
+            except (UnicodeError, LookupError):
+                raise ModelError("text not encodable in its declared encoding " + path)
         elif kind in ("mkdir", "mkfile"):
             path = op[1]
             if self.exists(path):
